@@ -952,9 +952,7 @@ func lexLiteral(l *lexer) stateFn {
 
 	// Accept everything as itemText until we see the {/literal}
 	// Emit the other various tokens.
-	if i > 0 {
-		l.emit(itemText)
-	}
+	l.emit(itemText) // possibly empty: {literal}{/literal}
 	l.pos += ast.Pos(delimLen)
 	l.emit(itemLeftDelim)
 	l.pos += ast.Pos(len("/literal"))
